@@ -9,7 +9,7 @@ namespace Nun
 unrelated), a non-admin session's get / get-safe / watch / set / set-safe / increment / remove /
 resolve on a `$$` key gets the same reply and the same (empty) pushes on both, and neither server
 changes: nothing about `$$` keys — not even their existence — reaches such a session this way. -/
-theorem C08_secure_refused_uniform (fuel : Nat) (n₁ n₂ : Node) (sid : Sid) (req : Request) (key : Bytes) (kind : PermKind)
+theorem C08_secure_refused_uniform (fuel : Node → Sid → Bytes → Node × Out) (n₁ n₂ : Node) (sid : Sid) (req : Request) (key : Bytes) (kind : PermKind)
     (hk : req.keyedKind = some (key, kind)) (hs : Bytes.startsWith key Gen.securePrefix = true)
     (ha₁ : (n₁.session sid).auth = false) (ha₂ : (n₂.session sid).auth = false) :
     (n₁.processObj fuel sid req).2 = (n₂.processObj fuel sid req).2 ∧
@@ -32,7 +32,7 @@ theorem C08_token_irremovable_db (db : Db) : db.removeValue Gen.tokenKey = none 
   simp [Db.removeValue]
 
 /-- … so a `remove $$token` from any session — administrators included — leaves the node unchanged -/
-theorem C08_token_irremovable (fuel : Nat) (n : Node) (sid : Sid) :
+theorem C08_token_irremovable (fuel : Node → Sid → Bytes → Node × Out) (n : Node) (sid : Sid) :
     (n.processObj fuel sid (.remove Gen.tokenKey)).1 = n := by
   simp only [Node.processObj, Node.withAccess]
   cases h : n.safeAccess sid Gen.tokenKey .remove with
@@ -40,7 +40,7 @@ theorem C08_token_irremovable (fuel : Nat) (n : Node) (sid : Sid) :
   | granted db => simp [C08_token_irremovable_db]
 
 /-- the same for the replicated form of the command -/
-theorem C08_token_irremovable_replicated (fuel : Nat) (n : Node) (sid : Sid) (dbn : Bytes) :
+theorem C08_token_irremovable_replicated (fuel : Node → Sid → Bytes → Node × Out) (n : Node) (sid : Sid) (dbn : Bytes) :
     (n.processObj fuel sid (.replicateRemove dbn Gen.tokenKey)).1 = n := by
   simp only [Node.processObj]
   split
